@@ -206,18 +206,21 @@ func InclusiveRangeContains(
 	end := getFieldAsIntegerValue(context, rangeValue, sema.InclusiveRangeTypeEndFieldName)
 	step := getFieldAsIntegerValue(context, rangeValue, sema.InclusiveRangeTypeStepFieldName)
 
-	result := start.Equal(context, needleValue) ||
-		end.Equal(context, needleValue)
+	result := start.Equal(context, needleValue)
 
 	if result {
 		return TrueValue
 	}
 
-	// Exclusive check since we already checked for boundaries above.
-	if !isNeedleBetweenStartEndExclusive(context, needleValue, start, end) {
+	// The end is only an element of the sequence if it is reachable from the start,
+	// so it is checked like the values in between.
+	// Exclusive check since we already checked for the start above.
+	if !end.Equal(context, needleValue) &&
+		!isNeedleBetweenStartEndExclusive(context, needleValue, start, end) {
+
 		result = false
 	} else {
-		// needle is in between start and end.
+		// needle is in between start and end, or is the end.
 		// start + k * step should be equal to needle i.e. (needle - start) mod step == 0.
 		diff, ok := needleValue.Minus(context, start).(IntegerValue)
 		if !ok {
